@@ -49,6 +49,8 @@ def gen_cases(rng, tier):
     route = rng.choice(ROUTES) if i % 20 else "cli"
     groute = "api" if route.startswith("api") else "potable"
     model = spec.gen_eam_model(rng, "eam", groute, target=rng.choice(["setfl", "lammps_eam_alloy"]))
+    if i % 12 == 7:
+      model = spec.numeric_species(rng, model)      # species labelled '9', '10', '2', '100'
     if groute == "api":
       model["api_containers"] = rng.choice([None, None, "tuple", "generator", "map", "amend_after_write"])
     cases.append({"route": route, "model": model, "style": rng.randrange(1 << 30)})
@@ -58,6 +60,10 @@ def gen_cases(rng, tier):
         m2 = dict(model)
         m2["embed"] = [model["embed"][k] for k in perm]
         cases.append({"route": "potable", "model": m2, "style": rng.randrange(1 << 30), "perm": list(perm)})
+  # species labels with hyphens (Python API): the pairs (A, B-C) and (A-B, C) are different pairs although both read 'A-B-C'
+  for i in range(4 if tier == "quick" else 30):
+    model = spec.hyphenated_species_model(rng, "eam", rng.choice(["setfl", "lammps_eam_alloy"]))
+    cases.append({"route": ["api_class", "api_legacy"][i % 2], "model": model, "style": rng.randrange(1 << 30), "hyphenated": True})
   # discontinuities exactly ON rows of grids that are exact in doubles (first / interior / last row): judged strictly
   for i in range(10 if tier == "quick" else 100):
     route = ["potable", "cli", "api_class", "potable", "api_legacy"][i % 5]
@@ -160,6 +166,8 @@ def run_case(case, ctx):
   nr, dr, nrho, drho = ref.grids()
   ridx = oracle.sample_rows(nr, rng, 14)
   rhoidx = oracle.sample_rows(nrho, rng, 14)
+  if case.get("hyphenated"):
+    ctx.cls("species_labels_with_hyphens")
   strict = bool(model.get("exact_rows"))
   if strict:
     ctx.cls("exact_boundary_on_rows")
